@@ -232,6 +232,11 @@ def check(case):
     cl.append("groups=%dx%d" % (k, l))
     want_a, want_b = dporacle.rows_from_cols(a, b, cert["cols"])
     if len(set(arows)) != 1 or len(set(brows)) != 1:
+        if case["pens"][0] >= 0 or case["pens"][1] >= 0 or case["pens"][2] >= 0:
+            # under user penalties the copies of one sequence need not be aligned gap-free with each other (gap open 0 and
+            # X:X <= 0 make a gapped alignment of two identical sequences optimal): the premise "each side is a group of
+            # identical copies" (aligned as one) does not hold, nothing is claimed; under the defaults it is C12's claim
+            return engine.discard("copies of one sequence aligned with gaps between them under user penalties (premise of the group form fails)", classes=cl)
         return engine.violation({"what": "identical copies received different rows", "a_rows": arows[:3], "b_rows": brows[:3]}, classes=cl)
     from vlib.oracle import strip_common_gap_columns
     got = strip_common_gap_columns([arows[0], brows[0]])
